@@ -454,7 +454,7 @@ func driveRoundTrip(c *driverCtx, prop string) error {
 				sizes = append(sizes, 1<<k+d)
 			}
 		}
-		sizes = append(sizes, 1000, 10000, 100000, 3*4096, 5*8192)
+		sizes = append(sizes, 15, 16, 17, 1000, 10000, 100000, 3*4096, 5*8192)
 		for i, n := range sizes {
 			if !c.thorough() && n > 1<<15+1 && i%3 != int(c.seed)%3 {
 				continue // the largest sizes rotate with the seed in the quick tier
@@ -471,6 +471,12 @@ func driveRoundTrip(c *driverCtx, prop string) error {
 						v.L = make([]int32, n)
 						for j := range v.L {
 							v.L[j] = int32(j % 100)
+						}
+					}
+					if n <= 1<<10+1 { // items of every fixed width, and strings
+						v.LF, v.LD, v.LB, v.LS = make([]float32, n), make([]float64, n), make([]bool, n), make([]string, n)
+						for j := 0; j < n; j++ {
+							v.LF[j], v.LD[j], v.LB[j], v.LS[j] = float32(j)+0.5, float64(j)-0.25, j%3 == 0, fmt.Sprint(j)
 						}
 					}
 				case 3:
@@ -499,6 +505,10 @@ type WSweep struct {
 	S      string
 	B      []byte
 	L      []int32
+	LF     []float32
+	LD     []float64
+	LB     []bool
+	LS     []string
 	M      map[string]int16
 	After  string
 }
